@@ -122,8 +122,29 @@ class C08(Prop):
             prog.append({"name": "root2", "nodes": [{"name": "lvl", "kind": "graph", "inner": 1}], "bound": []})
         return {"program": prog, "values": [["seed", rng.randint(0, 3)], ["y", rng.randint(10, 19)], ["x", rng.randint(20, 29)], ["cfg", rng.randint(30, 39)]]}
 
+    @staticmethod
+    def _entry_reaches_by_control_or_signal(rng: random.Random, how: str) -> dict:
+        """Entry points: what is downstream of the entry node INCLUDES nodes reached only through a gate's control edge (a gate target that
+        reads nothing computed downstream) and nodes reached only through an ordering signal — their own inputs are required."""
+        fn = gen._fn_node
+        if how == "control":
+            nodes = [fn("pre", [["seed", None]], ["a"], {"b": "sum", "k": 1}), fn("b1", [["a", None]], ["m"], {"b": "sum", "k": 1}),
+                     {"name": "check", "kind": "ifelse", "params": [["m", None]], "targets": ["fin", "__END__"], "body": {"b": "lt", "k": 50}, "defaultOpen": rng.random() < 0.5},
+                     fn("fin", [["label", None]], ["report"], {"b": "tag", "t": "fin"})]
+            entry, vals = "b1", [["seed", 1], ["a", 2], ["label", 7]]
+        else:
+            nodes = [fn("pre", [["seed", None]], ["src"], {"b": "sum", "k": 1}), fn("load", [["src", None]], ["rows"], {"b": "tag", "t": "load"}, emits=["loaded"]),
+                     fn("report", [["title", None]], ["text"], {"b": "tag", "t": "report"}, waitFor=["loaded"])]
+            entry, vals = "load", [["seed", 1], ["src", 2], ["title", 7]]
+        rng.shuffle(nodes)
+        return {"program": [{"name": "g0", "nodes": nodes, "bound": [], "entrypoints": [entry]}], "values": vals}
+
     def cases(self, rng: random.Random, tier: str) -> Iterable[dict]:
         C08._variant = -1
+        for how in ("control", "signal"):      # whatever the seed
+            c = self._entry_reaches_by_control_or_signal(rng, how)
+            for runner in ("sync", "async"):
+                yield {"program": copy.deepcopy(c["program"]), "known": c["values"], "rtselect": None, "ops": {"entrypoints": c["program"][0]["entrypoints"]}, "runner": runner}
         for _ in range(3):      # whatever the seed
             c = self._renamed_onto_bound_name(rng)
             yield {"program": copy.deepcopy(c["program"]), "known": c["values"], "rtselect": None, "ops": {"renamedOntoBound": 1}, "runner": rng.choice(["sync", "async"])}
